@@ -129,18 +129,28 @@ def burnt (c : Conn) : Conn := { c with sess := { c.sess with nextOut := c.sess.
 def Plain (m : Msg) : Prop :=
   (m.mtype == mSequenceReset) = false ∧ ((m.get? tPossDupFlag).getD "N" == "Y") = false
 
-theorem sendGate_active (m : Msg) (c : Conn) (ha : c.state = st_ACTIVE) :
+/-- `send_msg`'s state checks pass in every state from LOGON_INITIAL_RECV (8) upwards – in particular
+RESENDREQ_HANDLING (10), RECV_SEQNUM_TOO_HIGH (11), RESENDREQ_AWAITING (12), ACTIVE (17) -/
+theorem sendGate_on (m : Msg) (c : Conn) (h8 : 8 ≤ c.state) :
     sendGate m c = ⟨.ok (), c, []⟩ := by
-  simp [sendGate, ha, st_ACTIVE, st_NETWORK_CONN_ESTABLISHED, st_LOGON_INITIAL_SENT]
+  have h6 : ¬ (c.state < 6) := by omega
+  have h6' : ¬ (c.state = 6) := by omega
+  have h7 : ¬ (c.state = 7) := by omega
+  simp [sendGate, st_NETWORK_CONN_ESTABLISHED, st_LOGON_INITIAL_SENT, h6, h6', h7]
+
+theorem active_ge8 {c : Conn} (ha : c.state = st_ACTIVE) : 8 ≤ c.state := by rw [ha]; decide
+
+theorem sendGate_active (m : Msg) (c : Conn) (ha : c.state = st_ACTIVE) :
+    sendGate m c = ⟨.ok (), c, []⟩ := sendGate_on m c (active_ge8 ha)
 
 theorem encodeSeq_plain (m : Msg) (c : Conn) (hp : Plain m) :
     encodeSeq m c = ⟨.ok c.sess.nextOut, burnt c, []⟩ := by
   obtain ⟨hp1, hp2⟩ := hp
   simp [encodeSeq, hp1, hp2, burnt]
 
-/-- `send_msg` on an ACTIVE connection with a transport, completely: EncodingError (latin-1),
+/-- `send_msg` on a logged-on connection (state ≥ 8) with a transport, completely: EncodingError (latin-1),
 DuplicateSeqNoError (journal row exists), or journal + write. -/
-theorem sendMsg_active (env : Env) (c : Conn) (m : Msg) (ha : c.state = st_ACTIVE) (hs : c.sock = true)
+theorem sendMsg_on (env : Env) (c : Conn) (m : Msg) (h8 : 8 ≤ c.state) (hs : c.sock = true)
     (hp : Plain m) (ht : (m.mtype == mTestRequest && c.testReqId.isNone) = false) :
     sendMsg env m c =
       if frameLatin1 (frameOf env c m) = false then ⟨.error .encoding, c, []⟩
@@ -148,7 +158,7 @@ theorem sendMsg_active (env : Env) (c : Conn) (m : Msg) (ha : c.state = st_ACTIV
         | none => ⟨.error .duplicateSeqNo, burnt c, []⟩
         | some j => ⟨.ok (), sent c j, [.write (frameOf env c m)]⟩ := by
   unfold sendMsg
-  rw [bind_ok (sendGate_active m c ha), pre_nil]
+  rw [bind_ok (sendGate_on m c h8), pre_nil]
   unfold sendCore
   simp only [get_bind, ht, Bool.false_eq_true, if_false]
   rw [bind_ok (encodeSeq_plain m c hp), pre_nil, get_bind]
@@ -162,6 +172,15 @@ theorem sendMsg_active (env : Env) (c : Conn) (m : Msg) (ha : c.state = st_ACTIV
     cases hj : c.journal.persist Dir.outbound c.sess.nextOut (frameOf env c m)
     · simp
     · simp [burnt, hs, sent]
+
+theorem sendMsg_active (env : Env) (c : Conn) (m : Msg) (ha : c.state = st_ACTIVE) (hs : c.sock = true)
+    (hp : Plain m) (ht : (m.mtype == mTestRequest && c.testReqId.isNone) = false) :
+    sendMsg env m c =
+      if frameLatin1 (frameOf env c m) = false then ⟨.error .encoding, c, []⟩
+      else match c.journal.persist .outbound c.sess.nextOut (frameOf env c m) with
+        | none => ⟨.error .duplicateSeqNo, burnt c, []⟩
+        | some j => ⟨.ok (), sent c j, [.write (frameOf env c m)]⟩ :=
+  sendMsg_on env c m (active_ge8 ha) hs hp ht
 
 /-- the frame of a one-field session message keeps its type and carries that field
 (stated for the two tags the watchdog path uses: TestReqID(112) and Text(58)) -/
@@ -218,6 +237,31 @@ theorem sendTestReq_some (env : Env) (c : Conn) (id : Int) (hn : c.testReqId = s
 
 theorem tick_nosock (env : Env) (c : Conn) (hs : c.sock = false) : tick env c = (c, []) := by
   simp [tick, M.run, tickBody, hs]
+
+/-- connected but not ACTIVE (e.g. RESENDREQ_AWAITING, RESENDREQ_HANDLING, RECV_SEQNUM_TOO_HIGH): the
+iteration never probes; it disconnects iff `now − lastTime > 2·hb·1000` and (`lastTime ≠ 0`, or a truthy
+TestReqID left over from ACTIVE is older than `2·hb·1000` too); otherwise nothing at all happens. -/
+theorem tick_not_active (env : Env) (c : Conn) (hs : c.sock = true) (hna : c.state ≠ st_ACTIVE)
+    (h3 : c.state > st_DISCONNECTED_BROKEN_CONN) :
+    tick env c =
+      if c.hb * 2 * 1000 < env.now - c.lastTime ∧
+          (c.lastTime ≠ 0 ∨ (c.testReqId.getD 0 ≠ 0 ∧ c.hb * 2 * 1000 < env.now - c.testReqId.getD 0 * 1000)) then
+        (dropped c, dropEff)
+      else (c, []) := by
+  have hd : disconnect env st_DISCONNECTED_BROKEN_CONN none c = ⟨.ok (), dropped c, dropEff⟩ :=
+    disconnect_up env c h3 hs
+  by_cases hA : c.hb * 2 * 1000 < env.now - c.lastTime
+  · by_cases hL : c.lastTime = 0
+    · by_cases hX : c.testReqId.getD 0 ≠ 0 ∧ c.hb * 2 * 1000 < env.now - c.testReqId.getD 0 * 1000
+      · have hA0 : c.hb * 2 * 1000 < env.now := by omega
+        simp [tick, M.run, tickBody, hs, hna, hL, hX.1, hX.2, hA0]
+        rw [hd]
+      · have hX' : ¬ (¬ c.testReqId.getD 0 = 0 ∧ c.hb * 2 * 1000 < env.now - c.testReqId.getD 0 * 1000) := hX
+        simp [tick, M.run, tickBody, hs, hna, hL, hX']
+    · simp [tick, M.run, tickBody, hs, hna, hA, hL]
+      rw [bind_ok hd]
+      simp [dropped]
+  · simp [tick, M.run, tickBody, hs, hna, hA]
 
 /-- ACTIVE, nothing outstanding, last message recent: the iteration does nothing at all -/
 theorem tick_none_quiet (env : Env) (c : Conn) (hs : c.sock = true) (ha : c.state = st_ACTIVE)
